@@ -13,8 +13,12 @@ import (
 // verifyContract generates the obligations of one function under contract.
 func (g *Gen) verifyContract(p *program, c *Contract) (obs []*Oblig, x *fx, err error) {
 	fn := p.fns[c.Pkg+"."+c.Name]
+	cname := c.Name
+	if c.Variant != "" {
+		cname += "~" + c.Variant
+	}
 	mk := func(kind, msg string) *Oblig {
-		return &Oblig{Fn: c.Pkg + "." + c.Name, Name: shortPkg(c.Pkg) + "." + c.Name + "#" + kind, Kind: "binds", Status: "failed", Desc: msg, Output: msg, Expect: "unsat"}
+		return &Oblig{Fn: c.Pkg + "." + c.Name, Name: shortPkg(c.Pkg) + "." + cname + "#" + kind, Kind: "binds", Status: "failed", Desc: msg, Output: msg, Expect: "unsat"}
 	}
 	if fn == nil {
 		return []*Oblig{mk("binds", "contract does not bind: function "+c.Name+" not found in package "+c.Pkg+" under tags "+p.tags)}, nil, nil
@@ -101,9 +105,11 @@ func cmdDump(args []string) int {
 		return 2
 	}
 	var cs []*Contract
-	for k, c := range g.contracts {
-		if strings.HasSuffix(k, *fnName) && !c.Trusted {
-			cs = append(cs, c)
+	for _, cf := range g.files {
+		for _, c := range cf.Contracts {
+			if strings.HasSuffix(c.Pkg+"."+c.Name, *fnName) && !c.Trusted {
+				cs = append(cs, c)
+			}
 		}
 	}
 	if len(cs) == 0 {
